@@ -104,13 +104,18 @@ def _layout_edge(n: Node, var: str, layout: Set[str]) -> Optional[str]:
         return (isinstance(x, ast.Compare) and attr_chain(x.left) == (var, "type") and len(x.ops) == 1 and isinstance(x.ops[0], ast.Eq)
                 and isinstance(x.comparators[0], ast.Constant) and x.comparators[0].value in layout)
 
+    def is_nl_end(x):
+        # `tok.value.endswith("\n")`: only layout tokens can end with a newline (checked by the caller against the lexer model)
+        return ("<ends-with-newline>" in layout and isinstance(x, ast.Call) and attr_chain(x.func) == (var, "value", "endswith")
+                and len(x.args) == 1 and isinstance(x.args[0], ast.Constant) and x.args[0].value == "\n")
+
     def is_none(x):
         return (isinstance(x, ast.UnaryOp) and isinstance(x.op, ast.Not) and isinstance(x.operand, ast.Name) and x.operand.id == var) or (
             isinstance(x, ast.Compare) and isinstance(x.left, ast.Name) and x.left.id == var and isinstance(x.ops[0], ast.Is) and isinstance(x.comparators[0], ast.Constant) and x.comparators[0].value is None)
 
-    if is_layout_eq(c) or is_none(c):
+    if is_layout_eq(c) or is_none(c) or is_nl_end(c):
         return "T"
-    if isinstance(c, ast.BoolOp) and isinstance(c.op, ast.Or) and all(is_layout_eq(v) or is_none(v) for v in c.values):
+    if isinstance(c, ast.BoolOp) and isinstance(c.op, ast.Or) and all(is_layout_eq(v) or is_none(v) or is_nl_end(v) for v in c.values):
         return "T"
     return None
 
